@@ -1,8 +1,10 @@
 package checks
 
 import (
+	"encoding/json"
 	"fmt"
 	"sort"
+	"strings"
 	"testing"
 
 	"pgregory.net/rapid"
@@ -222,6 +224,95 @@ func TestC09Collide(t *testing.T) {
 		})
 		if msg != "" {
 			fail(rt, "C09", "c09", msg, c)
+		}
+	})
+}
+
+// ---- group by over a dynamically typed (JSON) member --------------------------------
+
+type c09DynCase struct {
+	Pairs []lib.Pair `json:"pairs"`
+	Batch int        `json:"batch"`
+	Query string     `json:"query"`
+}
+
+func init() {
+	registerReplay("c09dyn", func(c *c09DynCase) string { m, _ := checkC09Dyn(c); return m })
+}
+
+// checkC09Dyn: `group by json(value)['n']` where n is a number, a text or a
+// Boolean. Two pairs share a group only if their values are equal: equal
+// numbers (1 and 1.0), equal texts, equal Booleans - never the number 1 and
+// the text "1", never true and "true". Membership is read from
+// group_concat(key, ',').
+func checkC09Dyn(c *c09DynCase) (msg string, nontrivial bool) {
+	c.Query = "select json(value)['n'] as n, count(1), group_concat(key, ',') where key != '' group by n"
+	type gk struct {
+		kind string
+		num  float64
+		txt  string
+	}
+	var order []gk
+	members := map[gk][]string{}
+	for _, p := range lib.NewStore(c.Pairs).Pairs() {
+		var doc map[string]any
+		if err := json.Unmarshal([]byte(p.V), &doc); err != nil {
+			return "", false
+		}
+		var k gk
+		switch x := doc["n"].(type) {
+		case float64:
+			k = gk{kind: "number", num: x}
+		case string:
+			k = gk{kind: "text", txt: x}
+		case bool:
+			k = gk{kind: "bool", txt: fmt.Sprint(x)}
+		default:
+			return "", false
+		}
+		if _, ok := members[k]; !ok {
+			order = append(order, k)
+		}
+		members[k] = append(members[k], p.K)
+	}
+	for _, mode := range []string{"row", "batch"} {
+		cfg := lib.Cfg{Mode: mode, Batch: c.Batch, Cache: true}
+		res := lib.Run(c.Query, lib.NewStore(c.Pairs), len(c.Pairs), cfg)
+		if res.BuildErr != nil || res.Failed() {
+			return fmt.Sprintf("query %q over %v [%s]: %s", c.Query, c.Pairs, cfg, res.Describe()), true
+		}
+		var got []string
+		for _, r := range res.Rows {
+			if len(r) != 3 {
+				return fmt.Sprintf("query %q [%s]: row %s has %d columns", c.Query, cfg, lib.ShowRow(r), len(r)), true
+			}
+			got = append(got, fmt.Sprint(r[2]))
+		}
+		var want []string
+		for _, k := range order {
+			want = append(want, strings.Join(members[k], ","))
+		}
+		if fmt.Sprint(got) != fmt.Sprint(want) {
+			return fmt.Sprintf("query %q over %v [%s]: groups (keys of each, in order of first pair) %q, equal values give %q; rows %s", c.Query, c.Pairs, cfg, got, want, lib.ShowRows(res.Rows)), true
+		}
+	}
+	return "", len(order) >= 2 && len(order) < len(c.Pairs)
+}
+
+func TestC09DynamicGroups(t *testing.T) {
+	rapid.Check(t, func(rt *rapid.T) {
+		vals := []string{`1`, `1.0`, `"1"`, `2`, `"2"`, `2.5`, `"2.5"`, `true`, `"true"`, `false`, `"b"`, `""`, `0`, `"0"`, `0.1234561`, `0.1234562`}
+		n := rapid.IntRange(2, 9).Draw(rt, "n")
+		pairs := make([]lib.Pair, n)
+		for i := range pairs {
+			pairs[i] = lib.Pair{K: fmt.Sprintf("k%d", i), V: `{"n": ` + rapid.SampledFrom(vals).Draw(rt, "v") + `}`}
+		}
+		c := &c09DynCase{Pairs: pairs, Batch: rapid.SampledFrom([]int{1, 2, 3, 32}).Draw(rt, "batch")}
+		lib.Journal("C09", "c09dyn", c)
+		msg, nt := checkC09Dyn(c)
+		lib.Stats.Case(nt, fmt.Sprint(pairs, c.Batch), []string{"dynamic-group-column"}, func() any { return map[string]any{"pairs": pairs, "batch": c.Batch} })
+		if msg != "" {
+			fail(rt, "C09", "c09dyn", msg, c)
 		}
 	})
 }
